@@ -88,37 +88,40 @@ theorem attempt_some (fx : Fixes) (h1 : fx.nilGuard = true) (h2 : fx.digestRebin
 theorem deferred_some (resp : Option Resp) (err : Option Err) : ∃ r, deferred resp err = some r := by
   unfold deferred; exact ⟨_, rfl⟩
 
-/-- `do` of the repaired code never crashes and always returns a non-nil response. -/
+/-- `do` of the repaired code never crashes and — unless the script ran out under an unbounded
+retry — returns a non-nil response. -/
 theorem doLoop_some (fx : Fixes) (h1 : fx.nilGuard = true) (h2 : fx.digestRebind = true) (s : Stack) :
-    ∀ rem a prev, (doLoop fx s rem a prev).crash = false ∧ (doLoop fx s rem a prev).resp.isSome = true := by
-  intro rem
-  induction rem with
-  | zero =>
-    intro a prev
-    simp only [doLoop, (attempt_some fx h1 h2 s a prev).1]
-    obtain ⟨r, hr⟩ := deferred_some (attempt fx s a prev).resp (attempt fx s a prev).err
-    simp [stopOut, hr]
-  | succ rem ih =>
+    ∀ fuel a prev, (doLoop fx s fuel a prev).crash = false ∧
+      ((doLoop fx s fuel a prev).exhausted = false → (doLoop fx s fuel a prev).resp.isSome = true) := by
+  intro fuel
+  induction fuel with
+  | zero => intro a prev; simp [doLoop, exhaustedOut]
+  | succ fuel ih =>
     intro a prev
     obtain ⟨hc, hr⟩ := attempt_some fx h1 h2 s a prev
     simp only [doLoop, hc]
-    have hstop : (stopOut (attempt fx s a prev)).crash = false ∧ (stopOut (attempt fx s a prev)).resp.isSome = true := by
+    have hstop : (stopOut (attempt fx s a prev)).crash = false ∧
+        ((stopOut (attempt fx s a prev)).exhausted = false → (stopOut (attempt fx s a prev)).resp.isSome = true) := by
       obtain ⟨r, hr⟩ := deferred_some (attempt fx s a prev).resp (attempt fx s a prev).err
       simp [stopOut, hr]
     simp only [Bool.false_eq_true, if_false]
     split
     · exact hstop
     · split
-      · rename_i hret _
-        rcases hr with hr | ⟨hr, _⟩
-        · obtain ⟨r, hr'⟩ := Option.isSome_iff_exists.mp hr
-          simp only [hr']
-          exact ih _ _
-        · exact absurd hr hret
       · exact hstop
+      · split
+        · rename_i hret _ _
+          rcases hr with hr | ⟨hr, _⟩
+          · obtain ⟨r, hr'⟩ := Option.isSome_iff_exists.mp hr
+            simp only [hr']
+            split
+            · simp [waitOut]
+            · exact ih _ _
+          · exact absurd hr hret
+        · exact hstop
 
 theorem callDo_some (fx : Fixes) (h1 : fx.nilGuard = true) (h2 : fx.digestRebind = true) (s : Stack) :
-    (callDo fx s).crash = false ∧ (callDo fx s).resp.isSome = true := by
+    (callDo fx s).crash = false ∧ ((callDo fx s).exhausted = false → (callDo fx s).resp.isSome = true) := by
   unfold callDo
   split
   · simp
@@ -131,7 +134,7 @@ the attempt loop. -/
 theorem callDo_cases (fx : Fixes) (s : Stack) :
     (∃ e, (e = Err.builder ∨ e = Err.unreplayable) ∧
       callDo fx s = { atts := [], resp := some { origin := .synth, err := some e }, err := some e, crash := false }) ∨
-    callDo fx s = doLoop fx s s.maxRetries 0 none := by
+    callDo fx s = doLoop fx s s.fuelFor 0 none := by
   unfold callDo
   split
   · left; exact ⟨_, Or.inl rfl, rfl⟩
@@ -284,6 +287,19 @@ theorem autoRead_step (s : Stack) (r : Resp) : Step r.err (autoRead s r).1.err (
   · exact Step.refl _
 
 /-- What `parseResponseBody` does to the recorded error. -/
+theorem download_step (s : Stack) (a : Nat) (r : Resp) :
+    Step r.err (download s a r).1.err (raisedOf (download s a r).2) := by
+  unfold download
+  split
+  · exact Step.refl _
+  · split
+    · exact Step.refl _
+    · split
+      · exact Step.raise _ _
+      · split
+        · exact Step.raise _ _
+        · exact Step.refl _
+
 theorem parseBody_err (i : BindIn) :
     (∀ e, i.respErr = some e → ((parseBody i).err = none ∨ (parseBody i).err = some e) ∧ (parseBody i).respErr = some e) ∧
     (i.respErr = none →
@@ -367,7 +383,7 @@ theorem clientRoundTrip_carry (s : Stack) (a : Nat) (hl : ∀ m ∈ s.clientAt a
           | none => (parseResp s (autoRead s (exchange s a).1).1).resp).err := by
       unfold parsedErr; split <;> simp_all
     rw [heq] at c2
-    exact c2.step (clientLoop_step _ hl 0 _)
+    exact (c2.step (download_step s a _)).step (clientLoop_step _ hl 0 _)
 
 /-- The error a `(resp, err)` pair carries: the one recorded in the response if any, else `err`. -/
 def RT.carried (rt : RT) : Option Err := orE (rt.resp.bind (·.err)) rt.err
@@ -601,17 +617,19 @@ theorem stopOut_seen (t : Att) : ∃ r, (stopOut t).resp = some r ∧ r.err = t.
 
 /-- `do` of the repaired code, no suppressing stage: the response it returns records an error
 whenever a stage of the LAST attempt raised one, and the recorded error is one that a stage
-raised during the call (or was already recorded in the response handed in). -/
+raised during the call (or was already recorded in the response handed in, or is the context's
+error assigned by the wait before a retry). -/
 theorem doLoop_seen (s : Stack) (hl : s.Loud) :
-    ∀ rem a prev, ∃ r tl, (doLoop Fixes.all s rem a prev).resp = some r ∧
-      (doLoop Fixes.all s rem a prev).atts.getLast? = some tl ∧
+    ∀ fuel a prev, (doLoop Fixes.all s fuel a prev).exhausted = false →
+      ∃ r tl, (doLoop Fixes.all s fuel a prev).resp = some r ∧
+      (doLoop Fixes.all s fuel a prev).atts.getLast? = some tl ∧
       (raisedOf tl.evs ≠ [] → r.err ≠ none) ∧
-      (∀ e, r.err = some e → e ∈ allRaised (doLoop Fixes.all s rem a prev).atts ∨ prev.bind (·.err) = some e) := by
-  intro rem
+      (∀ e, r.err = some e → e ∈ allRaised (doLoop Fixes.all s fuel a prev).atts ∨ prev.bind (·.err) = some e ∨ e = .ctxDone) := by
+  intro fuel
   have stop : ∀ a prev, ∃ r tl, (stopOut (attempt Fixes.all s a prev)).resp = some r ∧
       (stopOut (attempt Fixes.all s a prev)).atts.getLast? = some tl ∧
       (raisedOf tl.evs ≠ [] → r.err ≠ none) ∧
-      (∀ e, r.err = some e → e ∈ allRaised (stopOut (attempt Fixes.all s a prev)).atts ∨ prev.bind (·.err) = some e) := by
+      (∀ e, r.err = some e → e ∈ allRaised (stopOut (attempt Fixes.all s a prev)).atts ∨ prev.bind (·.err) = some e ∨ e = .ctxDone) := by
     intro a prev
     obtain ⟨r, h1, h2, h3⟩ := stopOut_seen (attempt Fixes.all s a prev)
     obtain ⟨c1, c2⟩ := attempt_seen s hl a prev
@@ -619,40 +637,46 @@ theorem doLoop_seen (s : Stack) (hl : s.Loud) :
     intro e he
     rw [h2] at he
     rw [h3]
-    simpa [allRaised] using c2 e he
-  induction rem with
-  | zero =>
-    intro a prev
-    simp only [doLoop, (attempt_some Fixes.all rfl rfl s a prev).1, Bool.false_eq_true, if_false]
-    exact stop a prev
-  | succ rem ih =>
-    intro a prev
+    rcases c2 e he with h | h
+    · left; simpa [allRaised] using h
+    · right; left; exact h
+  induction fuel with
+  | zero => intro a prev h; simp [doLoop, exhaustedOut] at h
+  | succ fuel ih =>
+    intro a prev hex
     obtain ⟨hc, hr⟩ := attempt_some Fixes.all rfl rfl s a prev
-    simp only [doLoop, hc, Bool.false_eq_true, if_false]
+    simp only [doLoop, hc, Bool.false_eq_true, if_false] at hex ⊢
     split
     · exact stop a prev
     · split
-      · rename_i hret _
-        rcases hr with hr | ⟨hr, _⟩
-        · obtain ⟨r0, hr0⟩ := Option.isSome_iff_exists.mp hr
-          simp only [hr0]
-          obtain ⟨r, tl, i1, i2, i3, i4⟩ := ih (a + 1) (some (cleanup r0))
-          obtain ⟨_, c2⟩ := attempt_seen s hl a prev
-          refine ⟨r, tl, i1, ?_, i3, ?_⟩
-          · have hne := (doLoop_atts_length Fixes.all s rem (a + 1) (some (cleanup r0))).1
-            cases hl' : (doLoop Fixes.all s rem (a + 1) (some (cleanup r0))).atts with
-            | nil => rw [hl'] at hne; simp at hne
-            | cons x xs => rw [hl'] at i2; simpa [List.getLast?_cons_cons] using i2
-          · intro e he
-            rcases i4 e he with h | h
-            · left; simp only [allRaised, List.flatMap_cons, List.mem_append]; right; exact h
-            · have hs : (attempt Fixes.all s a prev).seen = some e := by
-                simp only [Option.bind_some, cleanup] at h
-                simp [Att.seen, hr0, h]
-              rcases c2 e hs with h' | h'
-              · left; simp only [allRaised, List.flatMap_cons, List.mem_append]; left; exact h'
-              · right; exact h'
-        · exact absurd hr hret
       · exact stop a prev
+      · split
+        · rename_i hret hcr hnr
+          rcases hr with hr | ⟨hr, _⟩
+          · obtain ⟨r0, hr0⟩ := Option.isSome_iff_exists.mp hr
+            simp only [hr0] at hex ⊢
+            split
+            · exact ⟨_, _, rfl, rfl, by simp, by intro e he; simp at he; right; right; exact he.symm⟩
+            · rename_i hctx
+              simp only [hret, hcr, hnr, hctx, Bool.false_eq_true, if_false, if_true] at hex
+              obtain ⟨r, tl, i1, i2, i3, i4⟩ := ih (a + 1) (some (cleanup r0)) hex
+              obtain ⟨_, c2⟩ := attempt_seen s hl a prev
+              refine ⟨r, tl, i1, ?_, i3, ?_⟩
+              · have hne := doLoop_atts_pos Fixes.all s fuel (a + 1) (some (cleanup r0)) hex
+                cases hl' : (doLoop Fixes.all s fuel (a + 1) (some (cleanup r0))).atts with
+                | nil => rw [hl'] at hne; simp at hne
+                | cons x xs => rw [hl'] at i2; simpa [List.getLast?_cons_cons] using i2
+              · intro e he
+                rcases i4 e he with h | h | h
+                · left; simp only [allRaised, List.flatMap_cons, List.mem_append]; right; exact h
+                · have hs : (attempt Fixes.all s a prev).seen = some e := by
+                    simp only [Option.bind_some, cleanup] at h
+                    simp [Att.seen, hr0, h]
+                  rcases c2 e hs with h' | h'
+                  · left; simp only [allRaised, List.flatMap_cons, List.mem_append]; left; exact h'
+                  · right; left; exact h'
+                · right; right; exact h
+          · exact absurd hr hret
+        · exact stop a prev
 
 end Req.Pipeline
